@@ -223,7 +223,7 @@ Check(m, e) ==
          ELSE IF e.px # 0 \/ (\A h \in m.hyps : ~PosOK(m, h, e.pos)) THEN Named(m, "position_names_heard_frame")
          ELSE ""
     \* (made: the position the handle reports right after the sound was created, before any callback)
-    [] e.a = "made" -> IF e.px # 0 \/ (\A h \in m.hyps : ~PosOK(m, h, e.pos)) THEN Named(m, "position_names_heard_frame") ELSE ""
+    [] e.a = "made" -> IF (\A h \in m.hyps : ~PosOK(m, h, e.pos)) THEN Named(m, "position_names_heard_frame") ELSE ""
     [] e.a = "end" ->
          LET r == StateReason(m, e.st) IN
          IF r # "" THEN Named(m, r)
@@ -303,7 +303,7 @@ Upd(m, e) ==
          IF m.arate = 0 THEN m
          ELSE IF e.n = 1 THEN [m EXCEPT !.step = m.arate, !.arate = 0]
          ELSE [m EXCEPT !.open = TRUE]
-    [] e.a = "made" -> IF e.px = 0 THEN [m EXCEPT !.made = e.pos] ELSE m
+    [] e.a = "made" -> [m EXCEPT !.made = e.pos]
     [] e.a = "end" -> SeeState(m, e.st)
     [] e.a \in {"seek_to", "seek_by", "set_loop"} -> Stash(m, e)
     [] e.a = "set_rate" ->
